@@ -171,3 +171,31 @@ Definition model_out_shape (tshape pshape : list nat) : option (list nat) :=
 (* a per-voxel sequence parameter without time axis: unsqueeze_right(self.p, m0.ndim - self.p.ndim) *)
 Definition seqparam_shape (sshape pshape : list nat) : list nat :=
   unsqueeze_right sshape (length pshape - length sshape).
+
+(* ---- shapes as the implementation computes them ---------------------------------------------------------------- *)
+(* x.reshape( *x.shape, *(n*(1,)) ) is called without any argument for a 0-dim tensor and n = 0: TypeError *)
+Definition unsqueeze_right_impl (s : list nat) (n : nat) : option (list nat) :=
+  match s, n with
+  | [], O => None
+  | _, _ => Some (unsqueeze_right s n)
+  end.
+Fixpoint unsq_all (l : list (list nat)) (rank : nat) : option (list (list nat)) :=
+  match l with
+  | [] => Some []
+  | s :: r => match unsqueeze_right_impl s (rank - length s), unsq_all r rank with
+              | Some s', Some r' => Some (s' :: r') | _, _ => None end
+  end.
+Inductive shape_res : Type := ShapeOk (s : list nat) | BroadcastError | ReshapeTypeError.
+(* tshape: shape of the time-like tensor (non-empty); p0: shape of the FIRST forward parameter, whose rank the code uses for
+   every unsqueeze_right count; pbc: broadcast shape of all forward parameters; seqs: shapes of the attributes that are
+   unsqueezed without a time axis (transient steady state model: repetition_time, m0_scaling_preparation,
+   delay_after_preparation; 0-dim when given as python floats) *)
+Definition model_shape_impl (tshape p0 pbc : list nat) (seqs : list (list nat)) : shape_res :=
+  match unsqueeze_right_impl tshape (length p0 - (length tshape - 1)), unsq_all seqs (length p0) with
+  | Some t, Some ss =>
+      match fold_left (fun acc s => match acc with Some a => broadcast a s | None => None end) ss (broadcast t pbc) with
+      | Some r => ShapeOk r
+      | None => BroadcastError
+      end
+  | _, _ => ReshapeTypeError
+  end.
